@@ -14,7 +14,7 @@ pub struct CheckDef {
     pub rule: &'static str,
 }
 
-pub const PROPS: &[&str] = &["C01", "C02", "C04", "C05", "C06", "C07", "C03", "C08", "C09", "C10", "C11", "C12", "C13", "C14", "C15", "C16", "C18", "C19"];
+pub const PROPS: &[&str] = &["C01", "C02", "C04", "C05", "C06", "C07", "C03", "C08", "C09", "C10", "C11", "C12", "C13", "C14", "C15", "C16", "C17", "C18", "C19"];
 
 pub fn def(prop: &str) -> Option<CheckDef> {
     let rule_mpmc = "cases drawn from the run seed by the role-separated mpmc generator (tasks x ops x capacity x payload class x handle flavours x poll plans x fault knobs); a case is non-trivial when operations of at least two tasks overlapped in simulated real time; distinct = distinct (case hash, op-level history hash) pairs";
@@ -40,6 +40,13 @@ pub fn def(prop: &str) -> Option<CheckDef> {
             };
             CheckDef { prop: p, quick_runs: 200_000, thorough_runs: 8_000_000, level: "exploration", rule: rule_mpmc }
         }
+        "C17" => CheckDef {
+            prop: "C17",
+            quick_runs: 300_000,
+            thorough_runs: 8_000_000,
+            level: "exploration",
+            rule: "2-4 tasks x 1-4 lock/try_lock/yield operations on kanal's internal lock (lock_api mutex over RawMutexLock), with a non-atomic read-modify-write inside the critical section, parallelism 1 and 4, stalls and freezes of the holder; non-trivial = operations of two tasks overlapped; distinct = distinct (case hash, history hash)",
+        },
         "C03" => CheckDef {
             prop: "C03",
             quick_runs: 200_000,
@@ -61,6 +68,9 @@ pub fn def(prop: &str) -> Option<CheckDef> {
 
 pub fn make_case(prop: &str, run_seed: u64, index: u64, tier: &str) -> Case {
     let mut rng = Rng::new(run_seed);
+    if prop == "C17" {
+        return crate::lockh::gen_lock_case(&mut rng);
+    }
     if prop == "C18" {
         let max_len = if tier == "thorough" { 4 } else { 3 };
         let n = crate::seq::enum_count(max_len);
@@ -74,6 +84,12 @@ pub fn make_case(prop: &str, run_seed: u64, index: u64, tier: &str) -> Case {
 }
 
 pub fn evaluate(prop: &str, d: &RunData) -> (Vec<Violation>, Vec<Violation>) {
+    if prop == "C17" {
+        let a = oracle::Analysis::new(d);
+        let all = oracle::o_abort(&a);
+        let owned = ["cs/", "hb/race", "lock/", "hang/"];
+        return all.into_iter().partition(|x| owned.iter().any(|p| x.sig.starts_with(p)));
+    }
     if prop == "C03" {
         let a = oracle::Analysis::new(d);
         let mut all = oracle::o_abort(&a);
